@@ -42,7 +42,7 @@ pub fn subst(s: &str, row: &[(String, String)], unknown: &mut Vec<String>) -> St
     out
 }
 
-const COLS: &[&str] = &["a", "b", "c-d", "e.f", "ü", "n1", "A"];
+const COLS: &[&str] = &["a", "b", "c-d", "e.f", "ü", "n1", "A", "<lt"];
 const VALS: &[&str] = &["1", "x y", "<a>", "$1", "a>b", "<", ">", r"\d+", "é", "", "<zz>", "$", "(", "{int}", "${a}", "<b>", "ab"];
 
 pub struct Gen {
@@ -68,7 +68,13 @@ pub fn gen_feature(t: &mut Tape, idx: usize) -> Gen {
             13..=14 => "<>".to_string(),
             15..=17 => "<a> <a>".to_string(),
             18..=19 => "a < b > c".to_string(),
-            20..=40 => "plain".to_string(),
+            // `<` is a legal character of a placeholder name: `<<a>` names the column `<a`
+            20..=21 => {
+                g.unknown_used = true;
+                ["<<a>", "1<<n1>", "<a<b>"][t.pick(3)].to_string()
+            }
+            22..=23 => "<<lt>".to_string(),
+            24..=40 => "plain".to_string(),
             _ => format!("<{}>", COLS[t.pick(COLS.len())]),
         }
     };
@@ -99,10 +105,18 @@ pub fn gen_feature(t: &mut Tape, idx: usize) -> Gen {
         for st in 0..t.range(1, 3) {
             let (a, b) = (ph(t, &mut g), ph(t, &mut g));
             g.text.push_str(&format!("{ind}  {} step {st} {a} and {b}\n", ["Given", "When", "Then", "And"][if st == 0 { t.pick(3) } else { t.pick(4) }]));
-            if t.chance(1, 4) {
+            // a doc string, a data table, or (the gherkin crate's grammar allows it) both
+            let (with_doc, with_table) = match t.pick(16) {
+                0..=3 => (true, false),
+                4..=6 => (false, true),
+                7..=8 => (true, true),
+                _ => (false, false),
+            };
+            if with_doc {
                 let d = ph(t, &mut g);
                 g.text.push_str(&format!("{ind}    \"\"\"\n{ind}    doc {d}\n{ind}      indented line\n{ind}    \"\"\"\n"));
-            } else if t.chance(1, 4) {
+            }
+            if with_table {
                 let (h, c) = (ph(t, &mut g), ph(t, &mut g));
                 g.text.push_str(&format!("{ind}    | h {h} | k |\n{ind}    | {c} | v |\n"));
             }
